@@ -36,6 +36,26 @@ def expectPoint (h d : Nat) : Str := if d == 0 then digitsOf h else digitsOf h +
 def pointBad : List Nat :=
   (List.range 100).filter fun k => !resIs (pointRes (k / 10) (k % 10)) (expectPoint (k / 10) (k % 10))
 
+/-! the repaired variant (`zhCfgFx`, findings/numcjk/point-value-float.diff) -/
+def pointResFx (h d : Nat) : Except Err (Val × Str) := parse zhCfgFx tagDou [cjkDigit h, cDian, cjkDigit d]
+def pointBadFx : List Nat :=
+  (List.range 100).filter fun k => !resIs (pointResFx (k / 10) (k % 10)) (expectPoint (k / 10) (k % 10))
+
+/-- `spellZh h 点 d1 d2 …` and the decimal it denotes (tails without a trailing zero) -/
+def zhDecText (h : Nat) (tail : List Nat) : Str := spellZh h ++ [cDian] ++ tail.map cjkDigit
+def zhDecExpect (h : Nat) (tail : List Nat) : Str := digitsOf h ++ [46] ++ tail.map (48 + ·)
+/-- longer tails: the four single-digit failures' relatives, and expressions that `int + float('0.…')` would still
+print wrongly (`四点五六`, `一点一四`, `六十五点二二六〇七`), up to 14 significant digits -/
+def fxSamples : List (Nat × List Nat) :=
+  [(0, [0, 5]), (0, [1, 5]), (0, [7, 5]), (0, [4, 3]), (4, [5, 6]), (1, [1, 4]), (65, [2, 2, 6, 0, 7]), (1234, [5, 6]),
+   (6, [9, 3, 3, 8, 8, 6, 1, 3, 6, 8, 2, 9, 4]), (2, [7, 1, 6, 2]), (1, [7, 0, 2, 8, 2, 1]), (3, [1, 4, 1, 5, 9, 2, 6, 5, 3, 5, 8, 9, 7, 9])]
+def fxSampleOk (q : Nat × List Nat) : Bool := resIs (parse zhCfgFx tagDou (zhDecText q.1 q.2)) (zhDecExpect q.1 q.2)
+def fxPercentOk (q : Nat × List Nat) : Bool :=
+  resIs (parse zhCfgFx tagPer (sBaiFenZhi ++ zhDecText q.1 q.2)) (pct (zhDecExpect q.1 q.2))
+/-- how many of the samples the code as first found prints wrongly -/
+def firstFoundBadSamples : Nat :=
+  (fxSamples.filter fun q => !resIs (parse zhCfg tagDou (zhDecText q.1 q.2)) (zhDecExpect q.1 q.2)).length
+
 /-- `d分之m`: the 15-digit half-even quotient (`Dec.div`), added to `Decimal(0)`, printed by `CultureInfo.format` -/
 def expectFrac (lf : Option (Nat × Nat)) (p c m d : Nat) : Str :=
   match Dec.div p (Dec.ofNat m) (Dec.ofNat d) with
